@@ -7,7 +7,7 @@
    print_ast of C03), SdlDocRoundtripProofs.v (document -> schema),
    SdlValidInvProofs.v, SdlDocRulesProofs.v (the document obeys the rules),
    SdlTextRoundtripProofs.v (composition).  Statements only. *)
-From PyGql Require Import Lang.PrinterModel Spec.PrinterSpec Proofs.PrinterSdlRoundtrip.
+From PyGql Require Import Lang.PrinterModel Spec.PrinterSpec Proofs.PrinterSdlRoundtrip Spec.LexSpec Proofs.PrinterValueRoundtrip.
 From PyGql Require Import Run.Driver Spec.SdlSpec Schema.SdlPrint Schema.SdlIntro Spec.SdlRoundtripSpec
      Proofs.SdlPrintProofs Proofs.SdlTextProofs Lang.Parser.
 From PyGql Require Import Proofs.SdlTextSchemaProofs Proofs.SdlDocRoundtripProofs Proofs.SdlValidInvProofs
@@ -154,24 +154,43 @@ Theorem C12_text_roundtrip_type_references : forall fl t,
 Proof. exact type_reference_text_roundtrip. Qed.
 Print Assumptions C12_text_roundtrip_type_references.
 
-(* ---- phase 3: composition with the AST printer round trip of C03 -------- *)
+(* ---- phases 3 / 4: composition with the AST printer round trip of C03 ---- *)
 
 (* ASTSchemaPrinter lays the document out itself (it does not subclass
    ASTPrinter; only values and applied directives go through print_ast).  For
-   schemas without descriptions, defaults and applied custom directives
-   ([plain_schema], Proofs/SdlTextSchemaProofs.v) the two layouts coincide:
-   the text is what the AST printer model of C03 writes for [ast_of_schema]. *)
+   schemas without descriptions ([text_schema], Proofs/SdlTextSchemaProofs.v:
+   default values whose literal is a plain GraphQL literal, applied custom
+   directives with plain arguments that the options print in full, all six
+   kinds, deprecations, directive definitions) the two layouts coincide: the
+   text is what the AST printer model of C03 writes for [ast_of_schema]. *)
 Theorem C12_text_is_ast_print_partial : forall o intro spec sc,
-  plain_schema sc -> po_introspection o = false ->
-  exists d, ast_of_schema sc = Ok d
-            /\ print_schema intro spec o sc = Ok (print_ast (po_indent o) true d).
-Proof. exact print_is_print_ast. Qed.
+  text_schema o sc -> po_introspection o = false ->
+  ast_of_schema sc = Ok (doc_of sc)
+  /\ print_schema intro spec o sc = Ok (print_ast (po_indent o) true (doc_of sc)).
+Proof. intros o intro spec sc H Hi. split; [apply (ast_of_schema_plain o); exact H|apply print_is_print_ast; assumption]. Qed.
 Print Assumptions C12_text_is_ast_print_partial.
+
+(* the literal ast_node_from_value emits for a default is a plain GraphQL
+   literal (what [text_schema] asks of defaults), for every Python value whose
+   float reprs are number literals (repr of a finite float) in an environment
+   whose enum value and input field names are names: IntValue / FloatValue
+   texts (str(int), the _INT_RE / _FLOAT_RE classes), non-block strings,
+   booleans, null, enum names, lists, input objects; no locations *)
+Theorem C12_default_literal_plain : forall E, env_names_ok E -> forall fuel v t n,
+  floats_ok v -> node_of_value fuel E v t = Ok n ->
+  good_value n /\ PrinterValueRoundtrip.wf_value true (relex n) /\ strip_value (relex n) = relex n
+  /\ forall cf cf', pr_value cf (relex n) = pr_value cf' n.
+Proof.
+  intros E HE fuel v t n Hf Hn. pose proof (node_good E HE fuel v t n Hf Hn) as G.
+  split; [exact G|]. split; [apply good_wf; exact G|]. split; [apply good_strip; exact G|].
+  intros cf cf'. apply good_print; exact G.
+Qed.
+Print Assumptions C12_default_literal_plain.
 
 (* ... hence (C03_sdl_roundtrip) the parser model of C01 reads the printed
    text back as exactly that document *)
 Theorem C12_text_parse_partial : forall intro spec o fl sc text,
-  plain_schema sc -> valid_locations sc -> po_introspection o = false ->
+  text_schema o sc -> valid_locations sc -> po_introspection o = false ->
   no_location fl = true -> allow_type_system fl = true -> all_ws (po_indent o) ->
   print_schema intro spec o sc = Ok text ->
   parse_document fl text = Ok (doc_of sc) /\ ast_of_schema sc = Ok (doc_of sc).
@@ -223,10 +242,16 @@ Theorem C12_members_roundtrip_guarded : forall sc d,
 Proof. exact members_roundtrip_guarded. Qed.
 Print Assumptions C12_members_roundtrip_guarded.
 
-(* C12_roundtrip for plain schemas, through the parser model: parse (print s)
-   builds a schema equivalent to s ... *)
+(* C12_roundtrip through the parser model, for schemas without descriptions:
+   parse (print s) builds a schema equivalent to s.  [defaults_guard] are the
+   guards that exclude the open findings: every default's literal coerces back
+   (custom-scalar-numeric-string-default; C12_default_roundtrip_partial gives
+   it for conforming values above a fuel bound) and [defaults_stable] of the
+   emitted document (the findings of C11; no extensions are emitted, so only
+   input-default-self-cycle can fail).  Without default values both hold
+   (C12_no_defaults_guard). *)
 Theorem C12_text_roundtrip_partial : forall intro spec o fl sc text,
-  plain_schema sc -> valid_locations sc -> schema_okb sc = true ->
+  text_schema o sc -> valid_locations sc -> schema_okb sc = true -> defaults_guard sc ->
   po_introspection o = false ->
   no_location fl = true -> allow_type_system fl = true -> all_ws (po_indent o) ->
   print_schema intro spec o sc = Ok text ->
@@ -234,13 +259,17 @@ Theorem C12_text_roundtrip_partial : forall intro spec o fl sc text,
                 /\ build_model (BOpts true []) d = Ok sc'
                 /\ roundtrip_equiv sc' sc = true
                 /\ declares_again sc sc'.
-Proof. exact text_roundtrip_plain. Qed.
+Proof. exact text_roundtrip. Qed.
 Print Assumptions C12_text_roundtrip_partial.
 
+Theorem C12_no_defaults_guard : forall o sc, text_schema o sc -> no_defaults sc -> defaults_guard sc.
+Proof. exact no_defaults_guard. Qed.
+Print Assumptions C12_no_defaults_guard.
+
 (* ... and printing the rebuilt schema gives the same text (C12_roundtrip_full
-   restricted to plain schemas, with the equivalence added) *)
+   restricted to schemas without descriptions, with the equivalence added) *)
 Theorem C12_fixpoint_partial : forall intro spec o fl sc text,
-  plain_schema sc -> valid_locations sc -> schema_okb sc = true ->
+  text_schema o sc -> valid_locations sc -> schema_okb sc = true -> defaults_guard sc ->
   po_introspection o = false ->
   no_location fl = true -> allow_type_system fl = true -> all_ws (po_indent o) ->
   print_schema intro spec o sc = Ok text ->
@@ -248,16 +277,16 @@ Theorem C12_fixpoint_partial : forall intro spec o fl sc text,
                 /\ build_model (BOpts true []) d = Ok sc'
                 /\ roundtrip_equiv sc' sc = true
                 /\ print_schema intro spec o sc' = Ok text.
-Proof. exact text_roundtrip_fixpoint_plain. Qed.
+Proof. exact text_roundtrip_fixpoint. Qed.
 Print Assumptions C12_fixpoint_partial.
 
 (* any schema that declares [sc] again (sorted, equal up to applied directives
    named like specified ones) prints like [sc] *)
 Theorem C12_fixpoint_declares_again : forall intro spec o sc sc',
-  plain_schema sc -> has_dup (map tdef_name (s_types sc)) = false -> declares_again sc sc' ->
+  text_schema o sc -> has_dup (map tdef_name (s_types sc)) = false -> declares_again sc sc' ->
   po_introspection o = false ->
   print_schema intro spec o sc' = print_schema intro spec o sc.
-Proof. exact fixpoint_plain. Qed.
+Proof. exact fixpoint_declares_again. Qed.
 Print Assumptions C12_fixpoint_declares_again.
 
 (* the printer is a function of (schema, options): the same arguments give the
@@ -338,58 +367,92 @@ Example C12_members_instance :
 Proof. split; vm_compute; reflexivity. Qed.
 
 (* the hypotheses of C12_text_roundtrip_partial / C12_fixpoint_partial hold of a
-   schema with an object, an interface, arguments, a deprecated field and a
-   deprecated enum value, a union, an input type and a directive definition;
-   the conclusion is also checked by computation (text, document, rebuilt
-   schema, second print) *)
+   schema with an object, an interface, arguments with defaults (Int, list of
+   enum, input object, String with an escape), a deprecated field and a
+   deprecated enum value, applied custom directives with arguments, a union,
+   an input type with defaults and a directive definition; the conclusion is
+   also checked by computation (text, document, rebuilt schema, second print) *)
+Definition tag_dir (z : Z) : directive :=
+  Dir (Name (s "tag") None) [Arg (Name (s "n") None) (VInt (str_of_Z z) None) None] None.
+
 Definition plain_example : schema :=
   Sch [TObject (s "Query") None [s "Node"]
          [SF (s "id") (s "id") [] (RNonNull (RNamed (s "ID"))) None None [];
-          SF (s "e") (s "e") [SIV (s "x") (s "x") (RList (RNonNull (RNamed (s "In")))) None None []]
-             (RNamed (s "E")) None (Some (s "old")) []] [];
+          SF (s "e") (s "e")
+             [SIV (s "x") (s "x") (RList (RNonNull (RNamed (s "In")))) None None [];
+              SIV (s "n") (s "n") (RNamed (s "Int")) (Some (PInt 5)) None [tag_dir 1];
+              SIV (s "es") (s "es") (RList (RNamed (s "E"))) (Some (PList [PStr (s "A"); PNone])) None [];
+              SIV (s "i") (s "i") (RNamed (s "In")) (Some (PDict [(s "n", PInt 7); (s "t", PStr [104; 10; 34]%N)])) None []]
+             (RNamed (s "E")) None (Some (s "old")) [tag_dir 2]] [tag_dir 3];
        TInterface (s "Node") None [SF (s "id") (s "id") [] (RNonNull (RNamed (s "ID"))) None None []] [];
-       TEnum (s "E") None [SEV (s "A") (PStr (s "A")) None (Some default_deprecation) [];
+       TEnum (s "E") None [SEV (s "A") (PStr (s "A")) None (Some default_deprecation) [tag_dir 4];
                            SEV (s "B") (PStr (s "B")) None None []] [];
        TUnion (s "U") None [s "Query"] [];
-       TInput (s "In") None [SIV (s "n") (s "n") (RNamed (s "Int")) None None []] [];
-       TScalar (s "Date") None []]
-      [DD (s "tag") None [s "FIELD"; s "OBJECT"] [SIV (s "n") (s "n") (RNamed (s "Int")) None None []]]
-      (Some (s "Query")) None None [].
+       TInput (s "In") None [SIV (s "n") (s "n") (RNamed (s "Int")) (Some (PInt 1)) None [];
+                             SIV (s "t") (s "t") (RNamed (s "String")) (Some (PStr (s "x"))) None []] [];
+       TScalar (s "Date") None [tag_dir 5]]
+      [DD (s "tag") None [s "FIELD_DEFINITION"; s "OBJECT"; s "SCALAR"; s "ENUM_VALUE"; s "ARGUMENT_DEFINITION"; s "SCHEMA"]
+          [SIV (s "n") (s "n") (RNamed (s "Int")) (Some (PInt 0)) None []]]
+      (Some (s "Query")) None None [tag_dir 6].
+
+Definition example_opts : popts := POpts (s "  ") true false CustomAll.
 
 Ltac vname_tac := eexists _, _; split; [reflexivity|]; split; [reflexivity|repeat constructor].
 
+Ltac good_value_tac :=
+  repeat match goal with
+         | |- _ /\ _ => split
+         | |- True => exact I
+         | |- _ = _ => reflexivity
+         | |- LexSpec.IntValue _ => apply int_re_spec; vm_compute; reflexivity
+         | |- PrinterRoundtrip.valid_name _ => vname_tac
+         | |- ~ _ => vm_compute; intuition discriminate
+         end.
+
+Ltac dirs_ok_tac :=
+  split; [vm_compute custom_dirs; repeat constructor; cbn; good_value_tac
+         |first [left; reflexivity|right; reflexivity]].
+
 Example C12_text_roundtrip_instance :
-  plain_schema plain_example /\ valid_locations plain_example
-  /\ schema_okb plain_example = true /\ sdl_rules_ok (doc_of plain_example).
+  text_schema example_opts plain_example /\ valid_locations plain_example
+  /\ schema_okb plain_example = true /\ defaults_guard plain_example.
 Proof.
   split; [|split; [|split]].
-  - unfold plain_schema, plain_example. cbn [s_types s_ddefs].
+  - unfold text_schema, plain_schema, plain_example. cbn [s_types s_ddefs].
     repeat match goal with
            | |- _ /\ _ => split
            | |- Forall _ _ => constructor
            | |- PrinterRoundtrip.valid_name _ => vname_tac
            | |- _ = None => reflexivity
-           | |- nodirs _ => reflexivity
+           | |- dirs_ok _ _ => dirs_ok_tac
+           | |- dflt_ok _ _ => unfold dflt_ok; cbn [siv_default siv_type];
+                               first [exact I|eexists; split; [vm_compute; reflexivity|cbn; good_value_tac]]
            | |- _ <> _ => discriminate
            | |- True => exact I
            | |- wf_tref _ => cbn [wf_tref]
-           | |- plain_tdef _ => unfold plain_tdef; cbn [tdef_desc tdef_dirs tdef_name]
-           | |- plain_sf _ => unfold plain_sf; cbn [sf_desc sf_dirs sf_name sf_type sf_args]
-           | |- plain_siv _ => unfold plain_siv; cbn [siv_default siv_desc siv_dirs siv_name siv_type]
-           | |- plain_sev _ => unfold plain_sev; cbn [sev_desc sev_dirs sev_name]
-           | |- plain_ddef _ => unfold plain_ddef; cbn [dd_desc dd_name dd_args dd_locs]
-           | |- plain_roots _ => unfold plain_roots; cbn [s_dirs s_query s_mutation s_subscription]
+           | |- plain_tdef _ _ _ => unfold plain_tdef; cbn [tdef_desc tdef_dirs tdef_name]
+           | |- plain_sf _ _ _ => unfold plain_sf; cbn [sf_desc sf_dirs sf_name sf_type sf_args]
+           | |- plain_siv _ _ _ => unfold plain_siv; cbn [siv_desc siv_dirs siv_name siv_type]
+           | |- plain_sev _ _ => unfold plain_sev; cbn [sev_desc sev_dirs sev_name]
+           | |- plain_ddef _ _ _ => unfold plain_ddef; cbn [dd_desc dd_name dd_args dd_locs]
+           | |- plain_roots _ _ => unfold plain_roots; cbn [s_dirs s_query s_mutation s_subscription]
            | |- ~ _ => vm_compute; intuition discriminate
            | |- exists q, Some ?x = Some q /\ _ => exists x; split; [reflexivity|]
            | |- forall m, None = Some m -> _ => intros ? ?; discriminate
            end.
   - unfold valid_locations, plain_example. cbn [s_ddefs dd_locs]. repeat constructor; vm_compute; tauto.
   - vm_compute; reflexivity.
-  - vm_compute; reflexivity.
+  - split.
+    + intros a Ha v n Hv Hn. vm_compute in Ha.
+      repeat (destruct Ha as [<-|Ha]; [try discriminate; inversion Hv; subst; vm_compute in Hn; inversion Hn; subst; vm_compute; reflexivity|]).
+      destruct Ha.
+    + split; intros iv Hin v Hv; vm_compute in Hin.
+      * repeat (destruct Hin as [<-|Hin]; [try discriminate; inversion Hv; subst; vm_compute; reflexivity|]). destruct Hin.
+      * destruct Hin.
 Qed.
 
 Example C12_fixpoint_instance :
-  let o := POpts (s "  ") true false CustomOff in
+  let o := example_opts in
   match print_schema introspection_types specified_ddefs o plain_example with
   | Ok text =>
       match parse_document (Flags true true false) text with
